@@ -220,6 +220,50 @@ def builder_ops_events(rng, n=40):
     return evs
 
 
+def gb_update_events(rng, n=30):
+    """GraphBuilder.update / count_node_names / copy on random graphs whose node functions build term strings."""
+    from .graph_driver import Term
+    evs = []
+    for _ in range(n):
+        N = rng.randint(3, 7)
+        nodes, inp, names = [], [], []
+        for i in range(1, N + 1):
+            k = rng.randint(0, min(i - 1, 3))
+            ins = rng.sample(range(1, i), k) if i > 1 else []
+            nm = rng.choice(["a", "b", "", "", "n0", "n1", "n3"]) + (str(i) if rng.random() < 0.4 else "")
+            if nm in names:
+                nm = ""
+            if ins:
+                node = lsl.Calc(lambda *a, _i=i: Term(f"f{_i}(" + ",".join(str(x) for x in a) + ")"),
+                                *[nodes[j - 1] for j in ins], _name=nm, update_on_init=False)
+            else:
+                node = lsl.Value(Term(f"v{i}"), _name=nm)
+            nodes.append(node)
+            inp.append(ins)
+            names.append(nm)
+        added = rng.sample(range(1, N + 1), rng.randint(1, N))       # the order of the add() calls
+        gb = lsl.GraphBuilder(to_float32=False)
+        for a in added:
+            gb.add(nodes[a - 1])
+        idx = {id(nd): i + 1 for i, nd in enumerate(nodes)}
+        vals = ["-" if nd.value is None else str(nd.value) for nd in nodes]
+        cp = gb.copy()
+        gb.update()
+        counts = gb.count_node_names()
+        ev = {"ev": "gb_update", "inp": inp, "added": added, "names": names, "vals": vals,
+              "vals_after": ["-" if nd.value is None else str(nd.value) for nd in nodes],
+              "names_after": [nd.name for nd in nodes], "added_after": [idx[id(x)] for x in gb.nodes],
+              "all_free": all(nd.model is None for nd in nodes),
+              "no_model_inputs_left": not any(i.name.startswith("_model") for nd in nodes for i in nd.all_input_nodes()),
+              "counts": sorted([k, int(v)] for k, v in counts.items()),
+              "copy_same_list": [idx[id(x)] for x in cp.nodes] == added}
+        extra = lsl.Value(Term("extra"), _name="extra_node")
+        cp.add(extra)
+        ev["original_unchanged_by_adding_to_the_copy"] = [idx.get(id(x), 0) for x in gb.nodes] == added
+        evs.append(ev)
+    return evs
+
+
 # ---- VarWiring: ownership of nodes by variables before a model is built -----------------
 class WiringWorld:
     """NV variables (born with a private Value node, no distribution, no name) and NN free nodes."""
